@@ -191,12 +191,17 @@ SoleWitnesses(rec) ==
        Rx == RR(rec)
        W == TLCEval([i \in 1..n |-> Writes(Rx, rec.plan[i])])
        RC == TLCEval([i \in 1..n |-> [ch \in ReadChannels |-> ReadsCh(Rx, rec.plan[i], ch)]])
-       dp == DepPairs(rec)
+       Rd == TLCEval([i \in 1..n |-> UNION {RC[i][ch] : ch \in ReadChannels}])
+       \* = DepPairs(rec) when the split adds up (checked below)
+       dp == {p \in (1..n) \X (1..n) :
+                /\ p[1] < p[2]
+                /\ \/ W[p[1]] \cap (Rd[p[2]] \cup W[p[2]]) # {}
+                   \/ W[p[2]] \cap (Rd[p[1]] \cup W[p[1]]) # {}}
        ChOf(p) == {ch \in ReadChannels : \/ W[p[1]] \cap RC[p[2]][ch] # {}
                                          \/ W[p[2]] \cap RC[p[1]][ch] # {}}
                   \cup (IF W[p[1]] \cap W[p[2]] # {} THEN {"write"} ELSE {})
        sole == {p \in dp : Cardinality(ChOf(p)) = 1 /\ p \notin TC(dp \ {p}, n)}
-   IN /\ \A i \in 1..n : \/ UNION {RC[i][ch] : ch \in ReadChannels} = Reads(Rx, rec.plan[i])
+   IN /\ \A i \in 1..n : \/ Rd[i] = Reads(Rx, rec.plan[i])
                          \/ PrintT(<<"CHERR", rec.id, i>>)
       /\ \A ch \in UNION {ChOf(p) : p \in sole} : PrintT(<<"SOLE", rec.id, ch>>)
 
